@@ -35,8 +35,9 @@ slot) are cleared instead of keeping the stale pointer above the restored `stack
 nargs slot of the prologue is a bookkeeping slot from the start (the C pushes a nil there that is
 never read as a value).
 
-Model follows the code with patch `patches/c09-callfun-byref-dangling.diff` applied
-(`push_arg_from_vals` pushes values, not references into the caller's array).  hawk_openstd
+Model follows /repo as of its `fix:` commits f933b14 (`push_arg_from_vals` pushes values, not
+references into the caller's array) and 0cb73a1 (`$0` keeps the last record in END).  Calls made
+from a script copy by-reference parameters back to the caller's variable (`copyBack`).  hawk_openstd
 enables FLEXMAP, so no assignment is rejected for its type.  Core Lean only.
 -/
 namespace Hawk.Ctx
@@ -48,6 +49,7 @@ namespace Hawk.Ctx
 inductive Val where
   | nil
   | int (n : Int)
+  | zls                  -- the statically allocated empty string (`hawk_val_zls`): not reference counted
   | ref (id : Nat)
   deriving DecidableEq, Repr, Inhabited
 
@@ -105,6 +107,7 @@ def data? (h : Heap) : Val → Option Data
 /-- string conversion (`hawk_rtx_valtostr`); FLEXMAP prints a map as `#MAP` -/
 def text (h : Heap) : Val → String
   | .nil => ""
+  | .zls => ""
   | .int n => toString n
   | .ref id =>
     match h.cells id with
@@ -190,7 +193,7 @@ def Prog.lookup (p : Prog) (name : String) : Option Nat :=
 /-! ## error numbers and exit levels (numeric values are not needed, only identity) -/
 
 inductive Err where
-  | enoerr | eperm | estack | edivby0 | eargtm | efunnf | eionmnf
+  | enoerr | eperm | estack | edivby0 | eargtm | efunnf | eionmnf | enotref | enonscatopos
   deriving DecidableEq, Repr, Inhabited
 
 def xlNone : Nat := 0
@@ -471,11 +474,52 @@ def enterCall (c : Ctx) (f : Fun) (args : List Expr) : Ctx :=
   let c1 := pushArgsFromExprs (pushPrologue c) args
   enterFrame (pushNils c1 (f.nargs - args.length)) c.stack.length f.nargs
 
-/-- what follows the body of an awk-level call: pop the locals (`nl` of them were pushed), leave the
-    frame, then `eval_expression0`'s exit check and the assignment `l<dst> = result`.
+/-- `hawk_rtx_setrec(rtx, 0, str)`: `$0` is replaced by a new string value (the static empty
+    string when the text is empty) -/
+def setRec0 (c : Ctx) (txt : String) : Ctx :=
+  let c1 := c.refdown c.rec0
+  if txt.isEmpty then { c1 with rec0 := .zls }
+  else
+    let (c2, v) := c1.alloc (.str txt)
+    { c2 with rec0 := v }
+
+/-- copy the final value `av` of a by-reference parameter back to the variable the caller passed
+    (`get_reference` evaluated against the previous stack base + `hawk_rtx_setrefval`), executed
+    while the callee's frame is still current.  `(false, _)`: the copy was rejected (n = -1). -/
+def copyBackOne (c : Ctx) (e : Expr) (av : Val) : Bool × Ctx :=
+  let pb := c.rawAt c.base
+  match e with
+  | .glob g => (true, c.assignGbl g av)                            -- HAWK_VAL_REF_GBL: hawk_rtx_setgbl
+  | .arg j => (true, c.assignGbl (pb + 4 + j) av)                  -- `if (*rref != val) { refdown; store; refup }`
+  | .loc j => (true, c.assignGbl (pb + 4 + c.rawAt (pb + 3) + j) av)
+  | .rec0 =>
+    -- HAWK_NDE_POS: the position expression is evaluated first; after `exit` that evaluation
+    -- is abandoned with the error number cleared and nothing is copied
+    if xlGlobal ≤ c.exitLevel then (true, c.setErr .enoerr)
+    else
+      match c.heap.data? av with
+      | some (.map _) => (false, c.setErr .enonscatopos)           -- a map cannot go into a positional
+      | _ => (true, setRec0 c (c.heap.text av))
+  | .nr => (true, c)                                               -- not generated (special global)
+  | _ => (true, c.setErr .enotref)                                 -- not referenceable: nothing copied, error number left behind
+
+/-- the copy-back loop of `hawk_rtx_evalcall` over the actual arguments; stops copying at the first rejection -/
+def copyBack (c : Ctx) : List Bool → List Expr → Nat → Bool × Ctx
+  | b :: bs, e :: es, i =>
+    if b then
+      match copyBackOne c e (c.slot (c.argIdx i)) with
+      | (true, c1) => copyBack c1 bs es (i + 1)
+      | (false, c1) => (false, c1)
+    else copyBack c bs es (i + 1)
+  | _, _, _ => (true, c)
+
+/-- what follows the body of an awk-level call: pop the locals (`nl` of them were pushed), copy the
+    by-reference parameters back when the body completed, leave the frame, then
+    `eval_expression0`'s exit check and the assignment `l<dst> = result`.
     `(false, c')`: the calling statement failed. -/
-def afterCall (c3 : Ctx) (ok : Bool) (nl : Nat) (dst : Nat) : Bool × Ctx :=
-  let (c4, r, _) := leaveFrame (popVals c3 nl) ok false
+def afterCall (c3 : Ctx) (ok : Bool) (nl : Nat) (dst : Nat) (spec : List Bool) (args : List Expr) : Bool × Ctx :=
+  let (ok1, c3a) := if ok then copyBack (popVals c3 nl) spec args 0 else (false, popVals c3 nl)
+  let (c4, r, _) := leaveFrame c3a ok1 false
   match r with
   | none => (false, c4)
   | some v =>
@@ -506,12 +550,12 @@ def runBody (p : Prog) (avail : Nat) (c : Ctx) (k : Cache) : List Action → Boo
             let c2 := enterCall c f args
             -- run_block0: room for the locals?
             if 0 < f.nlcls ∧ avail - stackReq f args.length < f.nlcls then
-              match afterCall (c2.setErr .estack) false 0 dst with
+              match afterCall (c2.setErr .estack) false 0 dst f.spec args with
               | (false, c4) => (false, c4, k1)
               | (true, c5) => runBody p avail c5 k1 rest
             else
               let (ok, c3, k2) := runBody p (avail - stackReq f args.length - f.nlcls) (pushNils c2 f.nlcls) k1 f.body
-              match afterCall c3 ok f.nlcls dst with
+              match afterCall c3 ok f.nlcls dst f.spec args with
               | (false, c4) => (false, c4, k2)
               | (true, c5) => runBody p avail c5 k2 rest
       | a =>
@@ -557,10 +601,17 @@ def callByName (p : Prog) (c : Ctx) (k : Cache) (name : String) (args : List Val
   | none => (c.setErr .efunnf, k, none)
   | some f => callFun p c k f args
 
-/-- `run_pblocks` without pattern-action blocks: read records until the end of input;
-    the record is cleared at end of input -/
+/-- `run_pblocks` without pattern-action blocks: read records until the end of input.  Each
+    record read replaces `$0` (the intermediate ones are made and released again); the read that
+    hits the end of input leaves the record alone, so `$0` keeps the last record in the END block
+    (commit 0cb73a1).  The exit level is reset at the head of every iteration. -/
 def consumeInput (c : Ctx) : Ctx :=
-  { (c.refdown c.rec0) with rec0 := .nil, nr := c.nr + c.input.length, input := [], exitLevel := xlNone }
+  match c.input.getLast? with
+  | none => { c with exitLevel := xlNone }
+  | some r =>
+    let c1 := c.refdown c.rec0
+    let (c2, v) := c1.alloc (.str r)
+    { c2 with rec0 := v, nr := c2.nr + c.input.length, input := [], exitLevel := xlNone }
 
 /-- the BEGIN block of `run_bpae_loop` -/
 def runBegin (p : Prog) (c1 : Ctx) (k : Cache) : Bool × Ctx × Cache :=
@@ -630,6 +681,7 @@ def dropTmps (c : Ctx) : List Val → Ctx
 
 def showVal (h : Heap) : Val → String
   | .nil => "nil"
+  | .zls => "s:"
   | .int n => "i:" ++ toString n
   | .ref id =>
     match h.cells id with
